@@ -205,11 +205,12 @@ Value Endgame<kKPK>::strongSideScore(const Position& position) const
     Square strongPawn =
         position.piece_position(make_piece(strongSide, PAWN), 0);
 
+    // after this call all squares are from the strong side point of view
     bitbase::normalize(strongSide, side, strongKingSq, strongPawn, weakKingSq);
     if (!bitbase::check(side, strongKingSq, strongPawn, weakKingSq))
-        return VALUE_POSITIVE_DRAW + Value(rank(normalize(strongPawn, strongSide)));
+        return VALUE_POSITIVE_DRAW + Value(rank(strongPawn));
 
-    return VALUE_KNOWN_WIN + Value(rank(normalize(strongPawn, strongSide)));
+    return VALUE_KNOWN_WIN + Value(rank(strongPawn));
 }
 
 template <>
